@@ -44,7 +44,10 @@ where
     fn deserialize_pk(bytes: &[u8]) -> Result<Self::Pk, InternalError> {
         PublicKey::<Self>::from_sec1_bytes(bytes)
             .map(|public_key| public_key.to_projective())
-            .map_err(|_| InternalError::PointError)
+            // Only accept the canonical (compressed) encoding, i.e. what `serialize_pk` produces
+            .ok()
+            .filter(|pk| Self::serialize_pk(*pk).as_slice() == bytes)
+            .ok_or(InternalError::PointError)
     }
 
     fn random_sk<R: RngCore + CryptoRng>(rng: &mut R) -> Self::Sk {
